@@ -299,14 +299,12 @@ def run_c29(ctx):
     fast = [s for s in scheds if s["id"] not in slow_ids]
     ctx.log("M2: %d TLC behaviours (%d with real sleeps)" % (len(scheds), len(slow)))
     evs = {}
-    shards = chunks(fast, ctx.workers)
-    for part in run_driver(ctx, "seq", shards, conns=4):
+    ctx.build("redis"); build_gateway(ctx)
+    # schedules with real sleeps run beside the fast ones (their own gateway processes)
+    slowjob = Bg(lambda: run_driver(ctx, "seq", chunks(slow, max(1, min(len(slow), ctx.workers // 2))), conns=24)) if slow else None
+    for part in run_driver(ctx, "seq", chunks(fast, ctx.workers), conns=4) + (slowjob.get() if slowjob else []):
         for e in part:
             evs.setdefault(e["s"], []).append(e)
-    if slow:
-        for part in run_driver(ctx, "seq", chunks(slow, max(1, ctx.workers // 2)), conns=24):
-            for e in part:
-                evs.setdefault(e["s"], []).append(e)
     # ---------------------------------------------------------------- M3
     order, traces, dropped = [], [], 0
     for s in scheds:
@@ -326,7 +324,9 @@ def run_c29(ctx):
                 t.append({"e": "Cmd", "cmd": tc[e["i"]], "r": [err_class(x) for x in e["r"]]})
         t.append({"e": "End", "closed": bool(es[-1]["closed"])})
         order.append(s["id"]); traces.append(t)
-    if slow and dropped > len(slow) // 2:
+    if dropped:
+        ctx.notes.append("%d of %d schedules with real sleeps missed a timing margin and were not judged" % (dropped, len(slow)))
+    if slow and not quick and dropped > len(slow) // 2:
         raise Undecided("%d of %d sleep schedules missed their timing margins (machine too loaded)" % (dropped, len(slow)))
     # binding self-test rides along as the last trace: one corrupted reply that must be reported
     ctl = None
@@ -454,6 +454,33 @@ def conc_schedule(sid, rng, quick):
     return {"id": sid, "init": init, "clients": clients, "final": final}, dict(zip(ctrs, inits)), ctrs, nxs
 
 
+ROUND_CLIENTS = 8
+
+
+def rounds_schedule(sid, rng, n_nx, n_incr):
+    """Hundreds of one-command rounds, each on a key nobody has written before: 8 clients are released together and
+    send SET <fresh key> NX, or an INCR-family command on a fresh counter. The window for a lost update on a
+    never-written key is the first commit, so it has to be hit often, not long."""
+    pre = "c%d:" % sid
+    kinds = ["nx"] * n_nx + ["incr"] * n_incr
+    rng.shuffle(kinds)
+    rounds, ctrs = [], []
+    for r, kind in enumerate(kinds):
+        if kind == "nx":
+            k = pre + "rn%d" % r
+            rounds.append([["SET", k, "client%d" % c, "NX"] for c in range(ROUND_CLIENTS)])
+        else:
+            k = pre + "ri%d" % r
+            ctrs.append(k)
+            row = []
+            for c in range(ROUND_CLIENTS):
+                x = rng.random()
+                row.append(["INCR", k] if x < 0.5 else ["DECR", k] if x < 0.6 else ["INCRBY", k, rng.choice(["2", "5", "-3"])] if x < 0.85
+                           else ["DECRBY", k, rng.choice(["1", "-2"])])
+            rounds.append(row)
+    return {"id": sid, "init": [], "clients": [], "rounds": rounds, "final": [["GET", k] for k in ctrs]}, {k: None for k in ctrs}, ctrs, []
+
+
 def conc_trace(sched, inits, ctrs, evs):
     t = [{"e": "Start", "k": k, "has": inits[k] is not None, "init": inits[k] or ""} for k in ctrs]
     winners = {}
@@ -487,6 +514,11 @@ def run_c30(ctx):
     for i in range(nsched):
         s, inits, ctrs, nxs = conc_schedule(i, ctx.rng, quick)
         scheds.append(s); meta.append((inits, ctrs, nxs))
+    nround_scheds = 3 if quick else 10
+    round_ids = set()
+    for i in range(nround_scheds):
+        s, inits, ctrs, nxs = rounds_schedule(len(scheds), ctx.rng, 400, 200)
+        round_ids.add(s["id"]); scheds.append(s); meta.append((inits, ctrs, nxs))
     for rp in json.load(open(os.path.join(VERIF, "findings", "redis_replays.json"))):
         if "C30" in rp["properties"] and "conc_schedule" in rp:   # recorded run: same commands again (the interleaving is free)
             s = dict(rp["conc_schedule"]); s["id"] = len(scheds)
@@ -515,6 +547,35 @@ def run_c30(ctx):
     reported = set()
     known = {f["id"]: f for f in ctx.load_known()}
     hits = {}
+    # ---- fresh-key rounds: every failing round is a contradiction of the property; they are counted per kind.
+    # The recorded engine race (C30-oracle-race) shows up in well under 0.1 % of rounds; anything at or above
+    # max(5, 1 %) of the rounds of a kind is not that finding.
+    fail = {"nx": {}, "incr": {}}
+    for (ti, line, ev, want) in rejected:
+        if ti in round_ids and ev["e"] in ("NX", "Final"):
+            fail["nx" if ev["e"] == "NX" else "incr"].setdefault(ti, []).append((ev, want))
+    total = {"nx": 400 * len(round_ids), "incr": 200 * len(round_ids)}
+    round_stats = {}
+    for kind in ("nx", "incr"):
+        nfail = sum(len(v) for v in fail[kind].values())
+        round_stats[kind] = {"rounds": total[kind], "failing": nfail}
+        if nfail == 0:
+            continue
+        ti = sorted(fail[kind])[0]
+        ev, want = fail[kind][ti][0]
+        what = ("%d of %d rounds of %d concurrent SET NX on a never-written key had more than one OK reply" if kind == "nx" else
+                "%d of %d rounds of %d concurrent INCR-family commands on a never-written counter lost an acknowledged update") % (nfail, total[kind], ROUND_CLIENTS)
+        nconf = sum(1 for t in round_ids for e in evs.get(t, []) if e["c"] >= 0 and e["r"][0].startswith("-") and "conflict" in e["r"][0].lower())
+        if nfail < max(5, total[kind] // 100) and nconf > 0 and "C30-oracle-race" in known:
+            if "C30-oracle-race" not in hits:
+                ctx.known_finding("C30-oracle-race: %s (%s; e.g. %s, expected %s)" % (known["C30-oracle-race"]["what"], what, json.dumps(ev), want))
+            hits["C30-oracle-race"] = hits.get("C30-oracle-race", 0) + nfail
+        else:
+            rp = ctx.save_replay("violation-rounds-%s.json" % kind, {"schedule": scheds[ti], "failing_rounds": nfail, "rounds": total[kind],
+                                 "examples": [{"event": e, "expected": w_} for e, w_ in fail[kind][ti][:10]],
+                                 "replies_of_first": [e for e in evs.get(ti, []) if e["cmd"][1] == ev["k"]]})
+            ctx.violation(rp, what + " (e.g. %s, expected %s)" % (json.dumps(ev), want))
+    rejected = [r for r in rejected if r[0] not in round_ids or r[2]["e"] not in ("NX", "Final")]
     for (ti, line, ev, want) in rejected:
         if want is not None and "?RANGE" in want:
             raise Undecided("run %d left the integer window of the model" % ti)
@@ -577,11 +638,13 @@ def run_c30(ctx):
         "states": m1.distinct, "transitions": m1.generated, "traces_validated_against_impl": len(traces),
         "evaluations": len(traces), "distinct_nontrivial": contended,
         "rule": "one evaluation = 4-8 free-running TCP clients x 50 INCR/DECR/INCRBY/DECRBY/SET NX commands on 3 counters (initial values absent, small, "
+                "or = 600 barrier-released one-command rounds of 8 clients on never-written keys (400 SET NX, 200 INCR-family); "
                 "2^63-1-2500, -2^63+2500) and 4 NX keys of one gateway process; non-trivial = at least two clients got successful INCR-family replies on the same counter",
         "samples": [{"clients": len(scheds[0]["clients"]), "init": scheds[0]["init"], "client0_first": scheds[0]["clients"][0][:6], "events": traces[0][:10]}],
         "m1": {"embedded_detect": {"generated": m1.generated, "distinct": m1.distinct}, "without_detection_violates": off.violated,
                "raft_read_then_write_violates": raft.violated},
         "events_validated": nevents, "reply_stats": stats, "contradictions": len(rejected), "known_finding_hits": hits,
+        "fresh_key_rounds": round_stats,
         "negative_control": "rejected as required",
         "checker_cmd": "tlc -config MC_RedisConc.cfg RedisConc.tla ; tlc -config RedisConcTrace.cfg RedisConcTrace.tla",
     }, assumptions=[
@@ -593,7 +656,8 @@ def run_c30(ctx):
 
 # ================================================================== C31
 SYM = {"CR": b"\r", "LF": b"\n", "SP": b" "}
-TOKBYTES = {"CRLF": b"\r\n", "CR": b"\r", "LF": b"\n", "SP": b" ", "A1": b"*1\r\n", "B1": b"$1\r\na\r\n"}
+TOKBYTES = {"CRLF": b"\r\n", "CR": b"\r", "LF": b"\n", "SP": b" ", "A1": b"*1\r\n", "A2": b"*2\r\n", "B1": b"$1\r\na\r\n",
+            "B0": b"$0\r\n\r\n", "H256M": b"$268435456\r\n", "P70K": b"a" * 70000}
 
 
 def tok_bytes(toks):
@@ -611,7 +675,7 @@ def from_syms(syms):
 
 def run_c31(ctx):
     quick = ctx.tier == "quick"
-    depth = 6 if quick else 9
+    depth = 5 if quick else 8
     d = ctx._specdir()
     cfg = "MC_Resp_%d.cfg" % depth
     open(os.path.join(d, cfg), "w").write(re.sub(r"Depth = \d+", "Depth = %d" % depth, open(os.path.join(d, "MC_Resp.cfg")).read()))
@@ -623,7 +687,7 @@ def run_c31(ctx):
         cases.append(json.loads(m.group(1).encode().decode("unicode_escape")))
     if len(cases) < 100:
         raise Undecided("Resp.tla produced only %d cases" % len(cases))
-    ctx.log("Resp.tla depth %d: %d token sequences (one per abstract automaton state and last token), %d generated states" % (depth, len(cases), m1.generated))
+    ctx.log("Resp.tla depth %d: %d token sequences (one per abstract automaton state), %d generated states" % (depth, len(cases), m1.generated))
     # driver input: bytes in one or two chunks (complete requests first: the gateway may hold back replies while a frame is unfinished)
     CAL = b"*1\r\n$2\r\nzz\r\n"
     dcases = [{"id": 0, "chunks": [CAL.hex()], "lines": []}]
@@ -703,8 +767,8 @@ def run_c31(ctx):
     allocs = sorted(e["alloc"] for e in obs.values() if e["alloc"] >= 0)
     ctx.evidence("exploration", {
         "evaluations": len(cases), "distinct_nontrivial": len(nt), "exhaustive": False,
-        "rule": "TLC enumerates the token sequences of Resp.tla up to depth %d over the alphabet {*, $, -1, 0, 1, 2, 2^31, 2^63-1, x, a, CRLF, CR, LF, SP, PING, A1 = '*1 CRLF', B1 = '$1 CRLF a CRLF'} "
-                "(one representative per abstract automaton state and last token, extension stops once the stream is ill-formed); each is sent to the real binary "
+        "rule": "TLC enumerates the token sequences of Resp.tla up to depth %d over the alphabet {*, $, -1, 0, 1, 2, 2^31, 2^63-1, x, a, CRLF, CR, LF, SP, PING, -2, A1/A2 = '*1/*2 CRLF', B1 = '$1 CRLF a CRLF', B0 = '$0 CRLF CRLF', H256M = '$268435456 CRLF', P70K = 70 000 payload bytes} "
+                "(one representative per abstract automaton state, extension stops once the stream is ill-formed); each is sent to the real binary "
                 "on a fresh connection followed by EOF; non-trivial = contains a complete well-formed request or a 2^31 / 2^63-1 length" % depth,
         "samples": [{"tokens": c["toks"], "expected": c["out"], "observed": {k: obs[i + 1][k] for k in ("out", "alive", "alloc", "sent")}} for i, c in list(enumerate(cases))[:3]],
         "case_classes": classes, "states": m1.distinct, "transitions": m1.generated,
